@@ -5,7 +5,7 @@
  */
 #include "fsv_harness.h"
 #include "unit.h"
-double in_a[1], in_b[1], in_d[1];
+fsv_f64 in_a[1], in_b[1], in_d[1];
 void fsv_harness(void)
 {
   FSV_IN_F64(in_a, 1); FSV_IN_F64(in_b, 1);
@@ -15,7 +15,7 @@ void fsv_harness(void)
   FSV_IN_F64(in_d, 1);
 #endif
   FSV_ASSUME(FSV_ISFINITE(in_a[0]) && FSV_ISFINITE(in_b[0]) && FSV_ISFINITE(in_d[0]) && in_d[0] > 0.0);
-  double s = fsv_slope(in_a[0], in_b[0], in_d[0]);
+  fsv_f64 s = fsv_slope(in_a[0], in_b[0], in_d[0]);
   FSV_OBS_F64(s);
   FSV_ASSERT(!FSV_ISNAN(s), "slope of finite operands is not NaN");
   if (in_a[0] <= in_b[0]) FSV_ASSERT(!(s > 0.0), "a <= b implies slope not positive");
